@@ -4,10 +4,12 @@ import (
 	"bytes"
 	crand "crypto/rand"
 	"crypto/sha256"
+	"errors"
 	"fmt"
 	"io"
 	"math/big"
 	"sync"
+	"syscall"
 
 	"gitlab.com/yawning/secp256k1-voi/secec"
 
@@ -21,7 +23,7 @@ func init() { Register("C09", runC09) }
 
 func runC09(r *mon.Run) {
 	n := bigN
-	for _, c := range []string{"c09:flip:entropy", "c09:flip:key", "c09:flip:digest", "c09:flip:digest-e-unchanged", "c09:reader:1-byte", "c09:reader:after-handouts-wiped", "c09:reader:chunks", "c09:reader:fail<32",
+	for _, c := range []string{"c09:flip:entropy", "c09:flip:key", "c09:flip:digest", "c09:flip:digest-e-unchanged", "c09:reader:1-byte", "c09:reader:after-handouts-wiped", "c09:reader:fail:temporary-class-error", "c09:reader:chunks", "c09:reader:fail<32",
 		"c09:reader:fail>=32", "c09:reader:exactly-32-consumed", "c09:rfc6979:match", "c09:rfc6979:digest>=n", "c09:rfc6979:long-digest", "c09:stream:constant", "c09:stream:counter", "c09:stream:repeating"} {
 		r.Require(c)
 	}
@@ -226,8 +228,10 @@ func runC09(r *mon.Run) {
 		// failing after j bytes
 		for _, j := range []int{i % 33, rng.Intn(32), 31, 32, 33 + rng.Intn(8)} {
 			rd := &fixedReader{data: append(append([]byte{}, entropy...), rng.Bytes(16)...)[:j], chunk: 1 + rng.Intn(40), errAfter: errScripted}
-			if rng.Bool() {
-				rd.errAfter = nil // io.EOF
+			// every class of read error, returned on every further call (a retry loop sees it again)
+			rd.errAfter = readerErrors()[rng.Intn(len(readerErrors()))]
+			if _, isTemp := rd.errAfter.(interface{ Temporary() bool }); isTemp || errors.Is(rd.errAfter, syscall.EAGAIN) {
+				w.Class("c09:reader:fail:temporary-class-error")
 			}
 			lr, ls, _, err := priv.SignRaw(rd, dig)
 			if j < 32 {
